@@ -1,21 +1,30 @@
 import Driver.Arith
 import Driver.Model
-/-! Line-protocol driver: one request per input line, one canonical answer per output line. -/
+import Driver.Proto
+/-! Line-protocol driver: one request per input line, one canonical answer per output line
+(protocol-trace lines `p …` answer only at `p done`). -/
 open Driver
 
-def handle (st : St) (line : String) : St × String :=
+structure DSt where
+  m : St := {}
+  p : PSt := {}
+
+def handle (st : DSt) (line : String) : DSt × Option String :=
   let ws := (line.trimAscii.toString.splitOn " ").filter (· ≠ "")
   match ws with
-  | [] => (st, "")
-  | "arith" :: rest => (st, (arithLine rest).getD "bad-op")
-  | "m" :: rest => modelLine st rest
-  | _ => (st, "bad-op")
+  | [] => (st, some "")
+  | "arith" :: rest => (st, some ((arithLine rest).getD "bad-op"))
+  | "m" :: rest => let (m, r) := modelLine st.m rest; ({ st with m := m }, some r)
+  | "p" :: rest => let (p, r) := protoLine st.p rest; ({ st with p := p }, r)
+  | _ => (st, some "bad-op")
 
-partial def loop (h : IO.FS.Stream) (out : IO.FS.Stream) (st : St) : IO Unit := do
+partial def loop (h : IO.FS.Stream) (out : IO.FS.Stream) (st : DSt) : IO Unit := do
   let line ← h.getLine
   if line.isEmpty then return ()
   let (st, r) := handle st line
-  out.putStrLn r
+  match r with
+  | some r => out.putStrLn r
+  | none => pure ()
   loop h out st
 
 def main : IO Unit := do
